@@ -77,7 +77,7 @@ func (x *Exec) enterLoop(st *State, fr *Frame, from, to *ssa.BasicBlock, li *loo
 	}
 	bound := x.letBound(ct, fr)
 	evalInv := func(cl *Clause) string {
-		sv, err := EvalSpec(cl.node, x.frameEnv(st, fr), x.sigs, bound)
+		sv, err := evalSpecFns(cl.node, x.frameEnv(st, fr), x.sigs, bound, fr.xsigs, fr.xsyms)
 		if err != nil {
 			x.fail("loop %d invariant %s of %s: %v", k, cl.Tag, fr.fn.Name(), err)
 			return "true"
@@ -193,8 +193,21 @@ func (x *Exec) havocLoop(st *State, fr *Frame, header *ssa.BasicBlock, li *loopI
 						cells[m.Cell] = true
 					}
 				}
+			case *ssa.Next:
+				if v, ok := fr.env[ins.Iter]; ok {
+					if it, ok := v.(MapIterV); ok && it.PosCell > 0 {
+						cells[it.PosCell] = true
+					}
+				}
 			case ssa.CallInstruction:
 				cc := ins.Common()
+				if b, ok := cc.Value.(*ssa.Builtin); ok && b.Name() == "delete" {
+					if v, ok := fr.env[cc.Args[0]]; ok {
+						if m, ok := v.(MapRef); ok {
+							cells[m.Cell] = true
+						}
+					}
+				}
 				ws, unk := x.callWrites(cc, map[*ssa.Function]bool{})
 				for n := range ws {
 					ghosts[n] = true
@@ -336,6 +349,21 @@ func (x *Exec) callWrites(cc *ssa.CallCommon, seen map[*ssa.Function]bool) (map[
 		if mc, ok := cc.Value.(*ssa.MakeClosure); ok {
 			return x.fnWrites(mc.Fn.(*ssa.Function), seen)
 		}
+		// a callback held in a captured variable / parameter whose runtime value is known
+		if v, ok := x.freeBind[derefValue(cc.Value)]; ok {
+			switch f := v.(type) {
+			case CloV:
+				x.bindFree(f.Fn, f.Free)
+				return x.fnWrites(f.Fn, seen)
+			case IfaceV:
+				if cv, ok := f.V.(CloV); ok {
+					x.bindFree(cv.Fn, cv.Free)
+					return x.fnWrites(cv.Fn, seen)
+				}
+			case FnV:
+				return x.fnWrites(f.Fn, seen)
+			}
+		}
 		// dynamic call (routed message handler, decoder, ante chain): its effect is confined to the context
 		// handle it receives; recorded for the caller to havoc that handle
 		for _, a := range cc.Args {
@@ -429,37 +457,76 @@ func collFieldName(v ssa.Value) string {
 	return ""
 }
 
-// nextIter: iteration over a Go map in an arbitrary order.
-func (x *Exec) nextIter(st *State, fr *Frame, ins *ssa.Next) {
-	it := x.val(fr, st, ins.Iter).(MapIterV)
-	tup := ins.Type().(*types.Tuple)
-	ok := x.freshTV("iter_ok", tBool, st)
+// Iteration over a Go map: the keys present when the loop starts are visited exactly once each in an
+// ARBITRARY order. The order is an uninterpreted bijection mkey : [0,mn) -> keys, so whatever is proved holds
+// for every iteration order (this is what makes map-range loops order-insensitive by construction).
+// In invariants: $it (entries visited so far), $mn, $mkey(t).
+func (x *Exec) newMapIter(st *State, fr *Frame, m Value) Value {
+	e := x.enc
 	var arr string
-	switch m := it.Map.(type) {
+	var mt *types.Map
+	switch mm := m.(type) {
 	case MapRef:
-		arr = st.cells[m.Cell].(TV).T
+		arr = st.cells[mm.Cell].(TV).T
+		mt = mm.Ty.Underlying().(*types.Map)
 	case TV:
-		arr = m.T
+		arr = mm.T
+		mt, _ = mm.Ty.Underlying().(*types.Map)
 	case ObjV:
-		mt := m.Ty.Underlying().(*types.Map)
-		arr = x.ghostGet(st, 0, gomapGhost(m.Path), x.enc.Sort(m.Ty), ghostInfo{Arr: true, Opt: true, ValTy: mt.Elem(), KeyTy: mt.Key()})
-	default:
-		x.fail("range over %s", describe(it.Map))
+		mt = mm.Ty.Underlying().(*types.Map)
+		arr = x.ghostGet(st, 0, gomapGhost(mm.Path), e.Sort(mm.Ty), ghostInfo{Arr: true, Opt: true, ValTy: mt.Elem(), KeyTy: mt.Key()})
+	}
+	if mt == nil {
+		x.fail("range over %s", describe(m))
+		return MapIterV{Map: m}
+	}
+	ks, vs := e.Sort(mt.Key()), e.Sort(mt.Elem())
+	id := e.Fresh("m")
+	mkey := e.DeclFun("mkey."+id, []string{"Int"}, ks)
+	midx := e.DeclFun("midx."+id, []string{ks}, "Int")
+	mn := e.DeclConst("mn."+id, "Int")
+	optS := "(Opt " + vs + ")"
+	st.Assume(and(app(">=", mn, "0"), app("<", mn, two63)))
+	card := e.DeclFun("card."+sanitize(e.Sort(mt)), []string{e.Sort(mt)}, "Int")
+	st.Assume(eq(mn, app(card, arr)))
+	st.Assume(fmt.Sprintf("(forall ((t Int)) (! (=> (and (<= 0 t) (< t %s)) (and %s (= (%s (%s t)) t))) :pattern ((%s t))))", mn, isSomeT(app("select", arr, app(mkey, "t")), optS), midx, mkey, mkey))
+	st.Assume(fmt.Sprintf("(forall ((k %s)) (! (=> %s (and (<= 0 (%s k)) (< (%s k) %s) (= (%s (%s k)) k))) :pattern ((%s k)) :pattern ((select %s k))))", ks, isSomeT(app("select", arr, "k"), optS), midx, midx, mn, mkey, midx, midx, arr))
+	pos := x.newCell(st, TV{T: "0", Ty: tInt}, tInt)
+	fr.names["$it"] = PtrV{Cell: pos}
+	if fr.xsigs == nil {
+		fr.xsigs, fr.xsyms = map[string]FunSig{}, map[string]string{}
+	}
+	fr.xsigs["$mkey"], fr.xsyms["$mkey"] = FunSig{Args: []string{"Int"}, Ret: ks}, mkey
+	fr.xsigs["$midx"], fr.xsyms["$midx"] = FunSig{Args: []string{ks}, Ret: "Int"}, midx
+	fr.names["$mn"] = TV{T: mn, Ty: tInt}
+	x.assumed["A-MAPRANGE: ranging over a Go map visits exactly the keys present at the start, each once, in an arbitrary order"] = true
+	return MapIterV{Map: m, M0: arr, ID: id, PosCell: pos, KS: ks, VS: vs}
+}
+
+func (x *Exec) nextIter(st *State, fr *Frame, ins *ssa.Next) {
+	it, ok := x.val(fr, st, ins.Iter).(MapIterV)
+	if !ok || it.ID == "" {
+		x.fail("next on unsupported iterator")
 		return
 	}
+	tup := ins.Type().(*types.Tuple)
+	pos := st.cells[it.PosCell].(TV).T
+	has := app("<", pos, "mn."+it.ID)
+	key := app("mkey."+it.ID, pos)
 	kt, vt := tup.At(1).Type(), tup.At(2).Type()
 	var k, v Value
-	k = TV{T: x.enc.Zero(types.Typ[types.Int]), Ty: kt}
-	if _, isInvalid := kt.(*types.Basic); !isInvalid || kt.(*types.Basic).Kind() != types.Invalid {
-		kk := x.freshTV("iter_k", kt, st)
-		st.Assume(implies(ok.T, isSomeT(app("select", arr, kk.T), "(Opt "+x.enc.Sort(vtOrInt(vt))+")")))
-		k = kk
-		if b, isB := vt.(*types.Basic); !isB || b.Kind() != types.Invalid {
-			v = TV{T: app("val", app("select", arr, kk.T)), Ty: vt}
+	k = TV{T: "0", Ty: tInt}
+	if b, isB := kt.(*types.Basic); !isB || b.Kind() != types.Invalid {
+		k = TV{T: key, Ty: kt}
+		for _, f := range x.enc.TypeFacts(key, kt, 0) {
+			st.Assume(implies(has, f))
 		}
 	}
-	x.warn("range over a Go map: iteration order is arbitrary; visited-set not tracked")
-	fr.env[ins] = TupV{ok, k, v}
+	if b, isB := vt.(*types.Basic); !isB || b.Kind() != types.Invalid {
+		v = TV{T: app("val", app("select", it.M0, key)), Ty: vt}
+	}
+	st.cells[it.PosCell] = TV{T: app("+", pos, "1"), Ty: tInt}
+	fr.env[ins] = TupV{TV{T: has, Ty: tBool}, k, v}
 }
 
 func (x *Exec) symTypeAssert(st *State, fr *Frame, ins *ssa.TypeAssert, iv TV) {
@@ -604,4 +671,30 @@ func (x *Exec) closureWrites(fn *ssa.Function) map[int]bool {
 		}
 	}
 	return out
+}
+
+func derefValue(v ssa.Value) ssa.Value {
+	if u, ok := v.(*ssa.UnOp); ok {
+		return u.X
+	}
+	return v
+}
+
+// bindFree records the runtime values of a closure's captured variables for the static write analysis.
+func (x *Exec) bindFree(fn *ssa.Function, free []Value) {
+	if x.freeBind == nil {
+		x.freeBind = map[ssa.Value]Value{}
+	}
+	for i, fv := range fn.FreeVars {
+		if i >= len(free) {
+			continue
+		}
+		v := free[i]
+		if p, ok := v.(PtrV); ok && x.bindState != nil && len(p.Path) == 0 {
+			if cv, ok := x.bindState.cells[p.Cell]; ok {
+				v = cv
+			}
+		}
+		x.freeBind[fv] = v
+	}
 }
